@@ -22,6 +22,25 @@ def hasData : Param → Bool
 theorem hasData_pinfoOf (p : Param) : (pinfoOf p).hasData = hasData p := by
   cases p <;> rfl
 
+/-- what `Mat.standardOp` (same-as-input) does to the parameter object of the data operand before
+    handing it to the results: uniform parameters lose their quantized values -/
+def stripData (p : Option Param) : Option Param :=
+  match p with
+  | some (.uniform qp (some _)) => some (.uniform qp none)
+  | x => x
+
+/-- stripped uniform parameters carry no data -/
+theorem stripData_nodata (p : Option Param) (hu : ∀ q, p = some q → ∃ qp d, q = .uniform qp d) :
+    ∀ q, stripData p = some q → hasData q = false := by
+  intro q hq
+  cases p with
+  | none => cases hq
+  | some q0 =>
+    obtain ⟨qp, d, rfl⟩ := hu q0 rfl
+    cases d with
+    | none => cases hq; rfl
+    | some v => cases hq; rfl
+
 /-- `n` is the name of tensor `i` of subgraph `sg = m.subgraphs[s]` -/
 def Loc (m : Model) (n : String) (s : Nat) (sg : Subgraph) (i : Nat) : Prop :=
   m.subgraphs[s]? = some sg ∧ ∃ t, sg.tensors[i]? = some t ∧ t.name = n
